@@ -643,6 +643,22 @@ def Semver.Gen.caret_table (parsed : Semver.Partial) : (Option Semver.BoundSet) 
   | { major := (some major), minor := (some minor), patch := (some patch), pre := pre_release, .. } => (Semver.BoundSet.rs_new (Semver.Bound.lo (Semver.Pred.inc ({ major := major, minor := minor, patch := patch, pre := pre_release, build := [] } : Semver.Version))) (Semver.Bound.up (Semver.Pred.exc (match (major, minor, patch) with | (0, 0, n) => (Rust.into ((0 : Nat), (0 : Nat), (n + 1), (0 : Nat)) : Semver.Version) | (0, n, _) => (Rust.into ((0 : Nat), (n + 1), (0 : Nat), (0 : Nat)) : Semver.Version) | (n, _, _) => (Rust.into ((n + 1), (0 : Nat), (0 : Nat), (0 : Nat)) : Semver.Version)))))
   | _ => none)
 
+/-- `SemverParseError::from_error_kind` (lib.rs:200-206) -/
+def Semver.PErr.rs_from_error_kind (input : (List Char)) (_kind : Unit) : Semver.PErr :=
+  ({ rest := input, ctx := none, kind := none } : Semver.PErr)
+
+/-- `SemverParseError::append` (lib.rs:208-219) -/
+def Semver.PErr.rs_append (self : Semver.PErr) (input : (List Char)) (_token_start : Unit) (_kind : Unit) : Semver.PErr :=
+  ({ rest := input, ctx := self.context, kind := self.kind } : Semver.PErr)
+
+/-- `SemverParseError::add_context` (lib.rs:223-234) -/
+def Semver.PErr.rs_add_context (self : Semver.PErr) (_input : (List Char)) (_token_start : Unit) (ctx : String) : Semver.PErr :=
+  ({ rest := self.input, ctx := (some ctx), kind := self.kind } : Semver.PErr)
+
+/-- `SemverParseError::from_external_error` (lib.rs:238-244) -/
+def Semver.PErr.rs_from_external_error (_input : (List Char)) (_kind : Unit) (e : Semver.PErr) : Semver.PErr :=
+  e
+
 /-- closure of `number()` (line 715) -/
 def Semver.Gen.number_check (copied : (List Char)) (raw : (List Char)) : (Except Semver.PErr Nat) := do
   let value ← (Rust.map_err (Rust.str_parse_u64 raw) (fun e => ({ rest := copied, ctx := none, kind := (some (Rust.parse_int_error_kind e)) } : Semver.PErr)))
